@@ -1,4 +1,5 @@
-(* CombsProofs: facts about the combinations / powerset model of Combs.v.  Standalone; prefix cb_. *)
+(* CombsProofs: itertools.combinations / powerset as modelled in Combs.v enumerate every k-sublist (by position) exactly once,
+   in non-decreasing size; counts are binomials / 2^n.  Standalone: depends on Combs.v only.  Prefix cb_. *)
 From Coq Require Import List Arith Lia Sorted Permutation.
 From ICG Require Import Combs.
 Import ListNotations.
@@ -279,3 +280,51 @@ Lemma cb_powerset_head {A} (l : list A) : exists r, cb_powerset l = [] :: r.
 Proof.
   unfold cb_powerset. cbn [seq map concat]. rewrite cb_combs_0. simpl. eexists; reflexivity.
 Qed.
+
+(* ---------- order: the powerset is produced by non-decreasing size ---------- *)
+Lemma cb_sorted_app {A} (R : A -> A -> Prop) (l1 l2 : list A) :
+  StronglySorted R l1 -> StronglySorted R l2 -> (forall x y, In x l1 -> In y l2 -> R x y) ->
+  StronglySorted R (l1 ++ l2).
+Proof.
+  induction l1 as [|a l1 IH]; intros H1 H2 H; simpl; auto.
+  inversion H1 as [|? ? Hs Hf]; subst. constructor.
+  - apply IH; auto. intros x y Hx Hy. apply H; [right; exact Hx| exact Hy].
+  - apply Forall_forall. intros y Hy. apply in_app_or in Hy. destruct Hy as [Hy|Hy].
+    + rewrite Forall_forall in Hf. apply Hf. exact Hy.
+    + apply H; [left; reflexivity| exact Hy].
+Qed.
+
+Lemma cb_sorted_all {A} (R : A -> A -> Prop) (l : list A) :
+  (forall x y, In x l -> In y l -> R x y) -> StronglySorted R l.
+Proof.
+  induction l as [|a l IH]; intros H; constructor.
+  - apply IH. intros x y Hx Hy. apply H; right; assumption.
+  - apply Forall_forall. intros y Hy. apply H; [left; reflexivity| right; exact Hy].
+Qed.
+
+Lemma cb_sorted_map {A B} (R : A -> A -> Prop) (R' : B -> B -> Prop) (f : A -> B) (l : list A) :
+  StronglySorted R l -> (forall a b, In a l -> In b l -> R a b -> R' (f a) (f b)) -> StronglySorted R' (map f l).
+Proof.
+  induction l as [|x l IH]; intros Hs H; simpl; constructor.
+  - inversion Hs; subst. apply IH; auto. intros a b Ha Hb. apply H; right; assumption.
+  - inversion Hs as [|? ? _ Hf]; subst. apply Forall_forall. intros y Hy. apply in_map_iff in Hy.
+    destruct Hy as [b [<- Hb]]. rewrite Forall_forall in Hf. apply H; [left; reflexivity| right; exact Hb| apply Hf; exact Hb].
+Qed.
+
+Lemma cb_blocks_sorted_length {A} (l : list A) a n :
+  StronglySorted (fun s t => length s <= length t) (concat (map (fun k => cb_combs k l) (seq a n))).
+Proof.
+  revert a. induction n as [|n IH]; intros a; simpl; [constructor|].
+  apply cb_sorted_app; [| apply IH |].
+  - apply cb_sorted_all. intros x y Hx Hy. apply cb_combs_in in Hx. apply cb_combs_in in Hy. lia.
+  - intros x y Hx Hy. apply cb_combs_in in Hx. apply in_concat in Hy. destruct Hy as [blk [Hblk Hy]].
+    apply in_map_iff in Hblk. destruct Hblk as [k [<- Hk]]. apply in_seq in Hk. apply cb_combs_in in Hy. lia.
+Qed.
+
+Lemma cb_powerset_sorted_length {A} (l : list A) :
+  StronglySorted (fun s t => length s <= length t) (cb_powerset l).
+Proof. apply cb_blocks_sorted_length. Qed.
+
+Lemma cb_upto_sorted_length {A} m (l : list A) :
+  StronglySorted (fun s t => length s <= length t) (cb_upto m l).
+Proof. apply cb_blocks_sorted_length. Qed.
